@@ -33,7 +33,10 @@ pub fn gen(r: &mut Rng) -> Value {
         listed.push(format!("./{}", r.pick(&paths)));
     }
     let bad = r.below(6); // 0: missing file, 1: malformed line in an included file
-    json!({"files": files, "main_includes": listed, "bad": bad, "split": r.chance(1, 2)})
+    // the main script may be named like one of the included files (in another directory) and may be opened through a
+    // path relative to the working directory
+    let main_name = ["main.ds", "b.ds", "c.ds", "main.ds"][r.below(4)];
+    json!({"files": files, "main_includes": listed, "bad": bad, "split": r.chance(1, 2), "main_name": main_name, "rel": r.below(3)})
 }
 
 fn paste(dir: &PathBuf, rel: &str, files: &serde_json::Map<String, Value>, out: &mut Vec<(String, usize, String)>) -> Option<()> {
@@ -80,7 +83,8 @@ pub fn run(input: &Value) -> Option<Value> {
         main_lines.push(json!(format!("!include_files {}", includes.join(" "))));
     }
     main_lines.push(json!("m1 = set end"));
-    files.insert("main.ds".to_string(), json!(main_lines));
+    let main_name = input["main_name"].as_str().unwrap_or("main.ds").to_string();
+    files.insert(main_name.clone(), json!(main_lines));
     let bad = input["bad"].as_u64()?;
     if bad == 1 {
         // malformed line in a deep file
@@ -96,10 +100,27 @@ pub fn run(input: &Value) -> Option<Value> {
         fs::write(dir.join(p), text.join("\n")).ok()?;
     }
     let mut flat = vec![];
-    paste(&dir, "main.ds", &files, &mut flat)?;
-    let main_path = dir.join("main.ds").to_string_lossy().to_string();
+    paste(&dir, &main_name, &files, &mut flat)?;
+    let rel = input["rel"].as_u64().unwrap_or(0);
+    let main_path = match rel {
+        1 => main_name.clone(),
+        2 => format!("./{}", main_name),
+        _ => dir.join(&main_name).to_string_lossy().to_string(),
+    };
+    let old_cwd = std::env::current_dir().ok();
+    if rel > 0 {
+        std::env::set_current_dir(&dir).ok()?;
+    }
     let res = parser::parse_file(&main_path);
+    if let Some(c) = old_cwd {
+        let _ = std::env::set_current_dir(c);
+    }
     let _ = fs::remove_dir_all(&dir);
+    let dir_s = dir.to_string_lossy().to_string();
+    let same_file = |a: &str, b: &str| -> bool {
+        let ab = |x: &str| if x.starts_with('/') { x.to_string() } else { format!("{}/{}", dir_s, x) };
+        same_file_abs(&ab(a), &ab(b))
+    };
     // expected: first problem in paste order
     let mut expected_err: Option<(String, Option<usize>)> = None;
     for (i, (f, ln, t)) in flat.iter().enumerate() {
@@ -154,7 +175,7 @@ pub fn run(input: &Value) -> Option<Value> {
     }
 }
 
-fn same_file(a: &str, b: &str) -> bool {
+fn same_file_abs(a: &str, b: &str) -> bool {
     let norm = |s: &str| -> Vec<String> {
         let mut out: Vec<String> = vec![];
         for c in s.split('/') {
